@@ -324,7 +324,7 @@ func c12DrawScenario(t *rapid.T, run *c12Run) {
 	}
 	perm := rapid.Permutation(corrupt).Draw(t, "scenarioRoles")
 	a, b := perm[0], perm[1]
-	switch rapid.IntRange(0, 10).Draw(t, "scenarioKind") {
+	switch rapid.IntRange(0, 11).Draw(t, "scenarioKind") {
 	case 0:
 		// a sends b a bad share, b keeps quiet about it, a then fails in
 		// phase 7 so its key must be reconstructed; b reveals (or not)
@@ -441,6 +441,23 @@ func c12DrawScenario(t *rapid.T, run *c12Run) {
 		b.scriptPeer = a.idx
 		run.note("scenario reveal-about-non-qual m%d about m%d", b.idx, a.idx)
 		run.fired["scenario:reveal-about-non-qual"] = true
+	case 11:
+		// a sends an honest member a bad share (justified accusation by the
+		// honest member); b, whose shares from a are fine, accuses a as well:
+		// the verdict on b's accusation must not depend on whether a was
+		// already disqualified when it is resolved (seed C01_2a); same with
+		// points in phases 7/8
+		if rapid.Bool().Draw(t, "scnPoints11") {
+			a.script = map[string]string{"p7": "points-invalid-for-honest"}
+			b.script = map[string]string{"p8": "accuse-peer"}
+		} else {
+			a.script = map[string]string{"p3": "wrong-shares-for-honest"}
+			b.script = map[string]string{"p4": "accuse-peer"}
+		}
+		a.scriptPeer = b.idx
+		b.scriptPeer = a.idx
+		run.note("scenario second-accusation-of-guilty m%d by m%d", a.idx, b.idx)
+		run.fired["scenario:second-accusation-of-guilty"] = true
 	}
 }
 
@@ -506,6 +523,31 @@ func (r *c12Run) scripted(t *rapid.T, m *c12Member, out []net.TaggedMarshaler, b
 		}
 		r.note("m%d victim %d", m.idx, victim)
 		return res
+	case "points-invalid-for-honest":
+		// points of f + c*(x - everybody but one honest member...) : invalid
+		// for exactly one honest member
+		st := m.st.(*pointsShareState)
+		msg := out[0].(*MemberPublicKeySharePointsMessage)
+		victim := r.honestSeat(t, "scnPointsVictim")
+		alt := &MemberPublicKeySharePointsMessage{senderID: msg.senderID, sessionID: msg.sessionID}
+		poly := []*big.Int{c12RandScalar()}
+		deg := 0
+		for _, o := range r.members {
+			if o.idx != m.idx && o.idx != victim && deg < len(st.member.secretCoefficients)-1 {
+				poly = c12PolyMulLinear(poly, int64(o.idx))
+				deg++
+			}
+		}
+		for i, a := range st.member.secretCoefficients {
+			c := new(big.Int).Set(a)
+			if i < len(poly) {
+				c.Add(c, poly[i])
+				c.Mod(c, c12Order)
+			}
+			alt.publicKeySharePoints = append(alt.publicKeySharePoints, new(bn256.G2).ScalarBaseMult(c))
+		}
+		r.note("m%d points invalid for honest %d", m.idx, victim)
+		return []net.TaggedMarshaler{alt}
 	case "points-invalid-for-peer":
 		// points of f + c*(product over everybody except the peer): valid for
 		// every member but the peer
@@ -558,6 +600,17 @@ func (r *c12Run) scripted(t *rapid.T, m *c12Member, out []net.TaggedMarshaler, b
 		}
 		return out
 	case "accuse-peer":
+		if msg, ok := out[0].(*PointsAccusationsMessage); ok {
+			st := m.st.(*pointsValidationState)
+			alt := &PointsAccusationsMessage{senderID: msg.senderID, sessionID: msg.sessionID, accusedMembersKeys: map[group.MemberIndex]*ephemeral.PrivateKey{}}
+			for k, v := range msg.accusedMembersKeys {
+				alt.accusedMembersKeys[k] = v
+			}
+			if kp, ok := st.member.ephemeralKeyPairs[m.scriptPeer]; ok {
+				alt.accusedMembersKeys[m.scriptPeer] = kp.PrivateKey
+			}
+			return []net.TaggedMarshaler{alt}
+		}
 		switch msg := out[0].(type) {
 		case *SecretSharesAccusationsMessage:
 			st := m.st.(*commitmentsVerificationState)
